@@ -4,10 +4,10 @@
 // ASSUME: GALOIS_DIE/GALOIS_SYS_DIE/GALOIS_ASSERT keep their abort() but drop the iostream message formatting; a reached abort() is an assertion failure
 // ASSUME: LargeArray's deleter (largeFreer) is munmap; FileGraph::node_degrees is never allocated here
 // ASSUME: FileGraph objects are heap-allocated and not destroyed (the std::deque teardown costs 15 s per object in the solver and is not part of the property)
-// OB: ob_arrays_v1 tier=quick unwind=8 unwindset=g__ZN6galois6graphs9FileGraph10fromArraysEPmmPvmPcmmmbi.3:26,g__ZN6galois6graphs9FileGraph10fromArraysEPmmPvmPcmmmbi.12:26 timeout=300 params=4,4,3 bounds="version 1: fromArrays -> toFile -> fromFile: nodes 0..3, edges 0..3 (odd and even), edge data 0/4/8 bytes (48 queries); out-index, destinations, edge data, converted flag symbolic" desc="a graph built with fromArrays lies inside the block sized by rawBlockSize (sections in order, 8-aligned), and written with toFile and read back with fromFile it is the same graph"
-// OB: ob_arrays_v2_even tier=quick unwind=8 unwindset=g__ZN6galois6graphs9FileGraph10fromArraysEPmmPvmPcmmmbi.3:26,g__ZN6galois6graphs9FileGraph10fromArraysEPmmPvmPcmmmbi.12:26 timeout=300 params=4,2,3 bounds="version 2 (64-bit destinations), EVEN edge counts 0,2: nodes 0..3, edge data 0/4/8 bytes (24 queries)" desc="same statement, version 2, even edge counts"
-// OB: ob_arrays_v2_odd tier=quick unwind=8 unwindset=g__ZN6galois6graphs9FileGraph10fromArraysEPmmPvmPcmmmbi.3:26,g__ZN6galois6graphs9FileGraph10fromArraysEPmmPvmPcmmmbi.12:26 timeout=300 params=4,2,3 bounds="version 2, ODD edge counts 1,3: nodes 0..3, edge data 0/4/8 bytes (24 queries)" desc="same statement, version 2, odd edge counts (fromArrays/fromMem skip 8 padding bytes that rawBlockSize does not allocate)"
-// OB: ob_tofile tier=quick unwind=8 unwindset=g__ZN6galois6graphs9FileGraph10fromArraysEPmmPvmPcmmmbi.3:26,g__ZN6galois6graphs9FileGraph10fromArraysEPmmPvmPcmmmbi.12:26 timeout=300 params=2,2 bounds="the real FileGraph::toFile write loop: 2 nodes, 2 or 3 edges, 4-byte edge data, version 1 / version 2 with 2 edges (4 queries, of which v2 with 3 edges is assumed away: see ob_arrays_v2_odd)" desc="toFile writes exactly the block; fromFile reads the same graph"
+// OB: ob_arrays_v1 tier=quick unwind=8 unwindfn=vf_byte_:26 timeout=300 params=4,4,3 bounds="version 1: fromArrays -> toFile -> fromFile: nodes 0..3, edges 0..3 (odd and even), edge data 0/4/8 bytes (48 queries); out-index, destinations, edge data, converted flag symbolic" desc="a graph built with fromArrays lies inside the block sized by rawBlockSize (sections in order, 8-aligned), and written with toFile and read back with fromFile it is the same graph"
+// OB: ob_arrays_v2_even tier=quick unwind=8 unwindfn=vf_byte_:26 timeout=300 params=4,2,3 bounds="version 2 (64-bit destinations), EVEN edge counts 0,2: nodes 0..3, edge data 0/4/8 bytes (24 queries)" desc="same statement, version 2, even edge counts"
+// OB: ob_arrays_v2_odd tier=quick unwind=8 unwindfn=vf_byte_:26 timeout=300 params=4,2,3 bounds="version 2, ODD edge counts 1,3: nodes 0..3, edge data 0/4/8 bytes (24 queries)" desc="same statement, version 2, odd edge counts (fromArrays/fromMem skip 8 padding bytes that rawBlockSize does not allocate)"
+// OB: ob_tofile tier=quick unwind=8 unwindfn=vf_byte_:26 timeout=300 params=2,2 bounds="the real FileGraph::toFile write loop: 2 nodes, 2 or 3 edges, 4-byte edge data, version 1 / version 2 with 2 edges (4 queries, of which v2 with 3 edges is assumed away: see ob_arrays_v2_odd)" desc="toFile writes exactly the block; fromFile reads the same graph"
 #include "C12_common.h"
 
 static void arrays_roundtrip(unsigned n, unsigned e, unsigned se, unsigned ver, bool useToFile = false) {
